@@ -656,7 +656,7 @@ impl CedarValueJson {
 
 /// helper function to check if the given keys contain any reserved keys,
 /// throwing an appropriate `JsonSerializationError` if so
-fn check_for_reserved_keys<'a>(
+pub(crate) fn check_for_reserved_keys<'a>(
     mut keys: impl Iterator<Item = &'a SmolStr>,
 ) -> Result<(), JsonSerializationError> {
     // We could be a little more permissive here, but to be
